@@ -41,6 +41,7 @@ TReset ==
   /\ nfail' = 0 /\ nreg' = 0 /\ nrestart' = 0 /\ ndel' = 0
   /\ gate' = FALSE /\ base0' = Ev.base0 /\ fsleep' = Ev.fsleep
   /\ kind' = [s \in Subs |-> Ev.kind[s]]
+  /\ msize' = Ev.msize
   /\ act' = act /\ todo' = <<>> /\ api' = <<"idle">>
 
 \* ProcessBlock ------------------------------------------------------------
